@@ -354,6 +354,31 @@ pub fn downfrom<U2: User, E2: Engine<U2>, G: AnyGoal<U2, E2>>(n: LTerm<U2, E2>, 
     })
 }
 
+pub fn memberrev<U2: User, E2: Engine<U2>, G: AnyGoal<U2, E2>>(x: LTerm<U2, E2>, l: LTerm<U2, E2>) -> InferredGoal<U2, E2, G> {
+    use proto_vulcan::operator::conde::cond;
+    proto_vulcan_closure!(cond {
+        |h, t| { l == [h | t], memberrev(x, t) },
+        |t| { l == [x | t] }
+    })
+}
+
+pub fn zeros<U2: User, E2: Engine<U2>, G: AnyGoal<U2, E2>>(l: LTerm<U2, E2>) -> InferredGoal<U2, E2, G> {
+    use proto_vulcan::operator::conde::cond;
+    proto_vulcan_closure!(cond {
+        l == [],
+        |h, t| { l == [h | t], zeros(t), h == 0 }
+    })
+}
+
+pub fn nrev<U2: User, E2: Engine<U2>, G: AnyGoal<U2, E2>>(l: LTerm<U2, E2>, r: LTerm<U2, E2>) -> InferredGoal<U2, E2, G> {
+    use proto_vulcan::operator::conde::cond;
+    use proto_vulcan::relation::append;
+    proto_vulcan_closure!(cond {
+        [l == [], r == []],
+        |h, t, rt| { l == [h | t], nrev(t, rt), append(rt, [h], r) }
+    })
+}
+
 pub fn diverge<U2: User, E2: Engine<U2>, G: AnyGoal<U2, E2>>() -> InferredGoal<U2, E2, G> {
     proto_vulcan_closure!(diverge())
 }
@@ -452,6 +477,9 @@ pub fn build_goal<G: Kinded>(g: &ast::Goal, env: &Env) -> G {
                 Rel::LenLe => lenle::<U, E, G>(a[0].clone(), a[1].clone()).cast_into(),
                 Rel::Downfrom => downfrom::<U, E, G>(a[0].clone(), a[1].clone()).cast_into(),
                 Rel::Diverge => diverge::<U, E, G>().cast_into(),
+                Rel::MemberRev => memberrev::<U, E, G>(a[0].clone(), a[1].clone()).cast_into(),
+                Rel::Zeros => zeros::<U, E, G>(a[0].clone()).cast_into(),
+                Rel::Nrev => nrev::<U, E, G>(a[0].clone(), a[1].clone()).cast_into(),
             }
         }
         A::Fd(f) => {
